@@ -228,6 +228,11 @@ type histStep struct {
 	Abnormal bool   `json:"abnormal,omitempty"`  // the run is expected to end abnormally
 	Callback bool   `json:"callbacks,omitempty"` // the run has native code calling back Scriggo functions
 	Cancel   bool   `json:"cancellable,omitempty"` // the run gets a context with a Done channel (the code may cancel it)
+	// Tenant, when not zero, makes the build declare in package h (and among the
+	// template globals) the functions Tenant, TenantAdd and TenantName as
+	// closures bound to this value: two builds of one history declare the same
+	// names, with the same types, and different implementations
+	Tenant int `json:"tenant,omitempty"`
 }
 
 var errHistWrite = errors.New("history: write failed")
@@ -449,6 +454,21 @@ func main() {
 	})
 	print("after")
 }`},
+		// ---- natives that differ from build to build (closures bound to the tenant of the step)
+		{Name: "tenant-natives", Callback: true, Program: `
+func main() {
+	n := h.In()
+	print(h.Tenant(), " ", h.TenantAdd(n), " ", h.TenantName("p"), " ")
+	print(h.Apply(func(x int) int { return h.TenantAdd(x) + ` + K + ` }, n))
+}`},
+		{Name: "tenant-natives-deferred", Callback: true, Program: `
+func show() { print(" d", h.TenantAdd(` + M + `)) }
+func main() {
+	defer show()
+	f := h.TenantName
+	print(f("q"), h.Tenant())
+}`},
+		{Name: "tenant-natives-template", Callback: true, Template: `{{ Tenant() }}:{{ TenantAdd(n) }}:{{ TenantName(s) }}:{{ Apply(func(x int) int { return TenantAdd(x) }, ` + K + `) }}`},
 		{Name: "template-cancelled", Abnormal: true, Template: `a{{ n }}{%% Cancel() %%}{%% for { } %%}b`},
 		{Name: "template-write-error", Abnormal: true, Callback: true, FailAt: 3 + m, Template: `0123456789{{ Apply(func(x int) int { return x + 1 }, n) }}abcdefghij{{ s }}`},
 		{Name: "template-write-error-in-macro", Abnormal: true, FailAt: 1 + m, Template: `{% macro M(a int) %}<<{{ a }}>>{% end %}{{ M(n) }}{{ M(` + K + `) }}`},
@@ -463,6 +483,11 @@ type histArtefact struct {
 func buildHistStep(st histStep) (*histArtefact, error) {
 	d := histDecls()
 	d["Yield"] = yieldNative
+	// the natives of this build only: closures over the tenant of the step (0 when the step has none)
+	tenant := st.Tenant
+	d["Tenant"] = func() int { return tenant }
+	d["TenantAdd"] = func(x int) int { return x + 100*tenant }
+	d["TenantName"] = func(prefix string) string { return fmt.Sprintf("%s-t%d", prefix, tenant) }
 	if st.Program != "" {
 		p, err := scriggo.Build(scriggo.Files{"main.go": []byte("package main\nimport \"h\"\nvar _ = h.In\n" + st.Program + "\n")},
 			&scriggo.BuildOptions{AllowGoStmt: true, Packages: native.Packages{"h": native.Package{Name: "h", Declarations: d}}})
@@ -625,9 +650,11 @@ func soloOutcomes(h []histStep) ([]string, []error) {
 // later, by steps that use callbacks; artefacts are reused when a step kind occurs again.
 func genHistory(r *rand.Rand) []histStep {
 	pool := histPool(r)
-	var normalCb, abnormal []histStep
+	var normalCb, abnormal, tenants []histStep
 	for _, s := range pool {
 		switch {
+		case strings.HasPrefix(s.Name, "tenant-"):
+			tenants = append(tenants, s)
 		case s.Abnormal:
 			abnormal = append(abnormal, s)
 		case s.Callback:
@@ -655,17 +682,41 @@ func genHistory(r *rand.Rand) []histStep {
 			s.Cancel = withCtx && r.Intn(3) == 0
 			h = append(h, s)
 		}
+		// builds of the same sources for different tenants: each build has its own natives
+		// under the same names; the first tenant may run again after the second was built
+		if r.Intn(2) == 0 {
+			s := tenants[r.Intn(len(tenants))]
+			t1 := 1 + r.Intn(4)
+			t2 := t1 + 1 + r.Intn(4)
+			for _, tn := range []int{t1, t2, t1}[:2+r.Intn(2)] {
+				s.Tenant = tn
+				s.Input = 1 + r.Intn(9)
+				h = append(h, s)
+			}
+		}
 	}
 	return h
 }
 
+// tenantStepsBefore are the steps with natives of their own (Tenant != 0) of the
+// histories that this process has run before: what they built is part of the
+// state of the process, so a failing history is recorded with them in front.
+var tenantStepsBefore []histStep
+
 // runHistory executes the steps in this process and compares each with its solo run.
 func runHistory(c *Ctx, h []histStep) {
+	defer func() {
+		for _, st := range h {
+			if st.Tenant != 0 && len(tenantStepsBefore) < 64 {
+				tenantStepsBefore = append(tenantStepsBefore, st)
+			}
+		}
+	}()
 	arts := map[string]*histArtefact{}
 	var got []string
 	wants, werrs := soloOutcomes(h)
 	for i, st := range h {
-		key := st.Name + "\x00" + st.Program + st.Template
+		key := fmt.Sprint(st.Tenant) + "\x00" + st.Name + "\x00" + st.Program + st.Template
 		a := arts[key]
 		if a == nil {
 			var err error
@@ -691,7 +742,8 @@ func runHistory(c *Ctx, h []histStep) {
 			c.Count("nontrivial")
 		}
 		if g != want {
-			c.Fail("history-run-differs-from-solo-run", map[string]any{"history": h[:i+1], "failing_step": i, "step": st.Name, "got": g, "want_solo_in_fresh_process": want, "earlier_outcomes": got[:i]})
+			rec := append(append([]histStep{}, tenantStepsBefore...), h[:i+1]...)
+			c.Fail("history-run-differs-from-solo-run", map[string]any{"history": rec, "failing_step": len(rec) - 1, "step": st.Name, "got": g, "want_solo_in_fresh_process": want, "earlier_outcomes": got[:i]})
 			c.Out.Flush()
 			return
 		}
